@@ -371,10 +371,11 @@ StateChecks(op, obs, fateq) ==
     : v \in DOMAIN disk}
   \cup (IF ObsOK(obs) THEN {} ELSE {<<"C01", "Observers", "length/offset/eof differ from the model:" \o op>>})
 
-\* after these the model no longer knows the state of the real object and the rest of the history is skipped
-\* (data / cursor discrepancies are not among them: the model's own state advanced as specified, and what the
-\*  medium holds is compared again at the next return - so that e.g. a flush of misplaced data is still judged)
-DesyncTags == {"Result", "Handle", "Panic"}
+\* after these the rest of the history is skipped.  Everything else - a wrong result, data or cursor discrepancies, a
+\* medium that does not hold what the history says - leaves the model in the state the *specification* prescribes, and
+\* validation goes on: what follows in an already violating history is reported under the property it belongs to
+\* (a duplicate created after a lookup failed is a C03 matter as well as a C06 one).
+DesyncTags == {"Panic"}
 
 \* the generic shape of a Return: admissibility, post-state, then the state checks
 \* refs: refusal set; okPost: action for success; extra: additional tags (computed from primed state)
